@@ -225,6 +225,14 @@ def execute(case: dict) -> dict:
         ref_msgs, verdict = refhttp.strict_read(stream)
         head_idx = tuple(i for i, m in enumerate(ref_msgs) if m.method == "HEAD")
         resps, problem = refhttp.frame_responses(out, head_request_indexes=head_idx, closed=st_.closing)
+        if problem and head_idx:
+            # a terminal 400 may take the place of a HEAD request that was parsed in the same read as the garbage after it:
+            # that 400 is not an answer to the HEAD and carries a body
+            for k in range(len(head_idx) - 1, -1, -1):
+                r2, p2 = refhttp.frame_responses(out, head_request_indexes=head_idx[:k], closed=st_.closing)
+                if not p2 and len(r2) > head_idx[k] and r2[head_idx[k]].status == 400 and r2[head_idx[k]] is r2[-1]:
+                    resps, problem = r2, p2
+                    break
         if problem:
             raise Violation("malformed-output", f"server output is not a sequence of well-formed responses: {problem}")
         finals = [r for r in resps if r.status >= 200 or not r.complete]
